@@ -300,6 +300,7 @@ FEATURES = [
     "out(typeof hoisted, hoisted()); function hoisted(){ return K } out(typeof v1); var v1 = J; out(v1);",
     "let x=K; { let x=J; out(x); { let x=S; out(x); } } out(x);",
     "function f(){ try { return inner() } catch(e) { return e.name } function inner(){ return tdz } let tdz=K; } out(f());",
+    "function tz(){ try { { const t = typeof tdz2; let tdz2=K; return t } } catch(e) { return e.name } } out(tz(), typeof neverDeclared, (()=>{ try { return typeof cz } catch (e) { return e.name } finally { } const cz=J; })());",
     "const o={ n:K, m(){ return [1,2].map(v=>v*this.n) }, g: function(){ return this && this.n } }; out(o.m(), o.g(), (0,o.g)===o.g);",
     "const o={ n:K, m(){ return this===undefined?'undef':this.n } }; out((o.m)(), ((o.m))(), (((o.m)))(), ((o['m']))(), ((o?.m))(), (0,o.m)===o.m);",
     "const p={a:1,z:0}; const c=Object.create(p); c.b=2; c.z=9; Object.defineProperty(c,'hid',{value:1,enumerable:false}); p.hid=5; const ks=[]; for (const k in c) ks.push(k); class P1 { x=1; m(){} } class Q1 extends P1 { y=K; } for (const k in new Q1()) ks.push(k); for (const k in Object.create([7,8])) ks.push(k); for (const k in 'ab') ks.push(k); out(ks, Object.keys(Object.prototype).length, Object.keys(Array.prototype).length, Object.keys(P1.prototype).length);",
